@@ -90,9 +90,9 @@ def parseEv (line : String) : Option Ev :=
   | ["wquit", w, "exited"] => do some (.wquit (← w.toNat?) true)
   | ["wquit", w, "noop"] => do some (.wquit (← w.toNat?) false)
   | ["wstop", w] => do some (.wstop (← w.toNat?))
-  | ["wjoin", w, t, "0"] => do some (.wjoin (← w.toNat?) (← t.toInt?) .rc0)
-  | ["wjoin", w, t, "1"] => do some (.wjoin (← w.toNat?) (← t.toInt?) .rc1)
-  | ["wjoin", w, t, "overran"] => do some (.wjoin (← w.toNat?) (← t.toInt?) .overran)
+  | ["wjoin", w, t, "0", sl] => do some (.wjoin (← w.toNat?) (← t.toInt?) .rc0 (← sl.toNat?))
+  | ["wjoin", w, t, "1", sl] => do some (.wjoin (← w.toNat?) (← t.toInt?) .rc1 (← sl.toNat?))
+  | ["wjoin", w, t, "overran", sl] => do some (.wjoin (← w.toNat?) (← t.toInt?) .overran (← sl.toNat?))
   | ["wdestroy", w, "ok"] => do some (.wdestroy (← w.toNat?) true)
   | ["wdestroy", w, "refused"] => do some (.wdestroy (← w.toNat?) false)
   | ["tinit", rc] => do some (.tinit (← rc.toInt?))
